@@ -441,3 +441,39 @@ Proof.
   intros us n d p u F Hna Hp. unfold revoke. rewrite (set_privilege_effect _ _ _ _ _ _ F Hna).
   destruct p; [congruence| | |reflexivity]; destruct (user_priv us n d); reflexivity.
 Qed.
+
+(* ------------------------------------------------------------------------------------------------------------ *)
+(* Part C: RequiredPrivileges table *)
+From OG Require Import C19.Privileges C19.Gen_Privileges.
+
+Lemma required_privileges_match_check : list_eqb stmt_priv_eqb gen_privs model_privs = true.
+Proof. vm_compute. reflexivity. Qed.
+
+(* a statement whose requirement list contains an Admin entry is refused for every non-administrator *)
+Lemma admin_requirement_refuses : forall u dflt s, In RAdmin s -> u_admin u = false -> authorize_query u dflt [s] = false.
+Proof.
+  intros u dflt s Hin Hna. unfold authorize_query. rewrite Hna. cbn [orb forallb]. rewrite andb_true_r.
+  unfold authorize_stmt. destruct (forallb _ s) eqn:E; [|reflexivity].
+  rewrite forallb_forall in E. specialize (E RAdmin Hin). discriminate.
+Qed.
+
+(* every requirement of the list must hold: one missing privilege refuses the statement *)
+Lemma every_requirement_must_hold : forall u dflt s d p,
+  In (RDb d p) s -> u_admin u = false -> authorize_database u p (target_db d dflt) = false ->
+  authorize_query u dflt [s] = false.
+Proof.
+  intros u dflt s d p Hin Hna Hno. unfold authorize_query. rewrite Hna. cbn [orb forallb]. rewrite andb_true_r.
+  unfold authorize_stmt. destruct (forallb _ s) eqn:E; [|reflexivity].
+  rewrite forallb_forall in E. specialize (E _ Hin). cbn in E. congruence.
+Qed.
+
+(* statement types that are administrator-only in the table *)
+Definition admin_only_type (ty : string) : bool :=
+  match required_of model_privs ty "" with Some s => existsb (fun r => match r with RAdmin => true | _ => false end) s | None => false end.
+Lemma admin_only_types_check :
+  forallb admin_only_type ["CreateDatabaseStatement"; "DropDatabaseStatement"; "CreateUserStatement"; "DropUserStatement";
+    "GrantStatement"; "GrantAdminStatement"; "RevokeStatement"; "RevokeAdminStatement"; "SetPasswordUserStatement";
+    "ShowUsersStatement"; "ShowGrantsForUserStatement"; "CreateRetentionPolicyStatement"; "AlterRetentionPolicyStatement";
+    "DropMeasurementStatement"; "DropShardStatement"; "KillQueryStatement"; "ShowShardsStatement"; "ShowStatsStatement";
+    "ShowDiagnosticsStatement"; "CreateMeasurementStatement"; "SetConfigStatement"; "ShowConfigsStatement"] = true.
+Proof. vm_compute. reflexivity. Qed.
